@@ -93,6 +93,7 @@ type FuncVC struct {
 	trustedUsed  map[string]bool
 	discovery    int
 	ordCount map[string]int
+	localDone map[string]bool
 }
 
 type loopHead struct {
@@ -414,7 +415,7 @@ func NewFuncVC(W *World, fn *ssa.Function, fc *FuncContract) *FuncVC {
 		vals: map[ssa.Value]*Val{}, reach: map[*ssa.BasicBlock]Term{}, out: map[*ssa.BasicBlock]*State{},
 		edges: map[[2]int]Term{}, params: map[string]SVal{}, callOrd: map[string]int{}, nonnil: map[ssa.Value]bool{},
 		loopOrd: map[*ssa.BasicBlock]int{}, loopBody: map[*ssa.BasicBlock]map[*ssa.BasicBlock]bool{}, backEdge: map[[2]int]bool{},
-		headerSt: map[*ssa.BasicBlock]*loopHead{}, uncontracted: map[string]bool{}, trustedUsed: map[string]bool{}, ordCount: map[string]int{}}
+		headerSt: map[*ssa.BasicBlock]*loopHead{}, uncontracted: map[string]bool{}, trustedUsed: map[string]bool{}, ordCount: map[string]int{}, localDone: map[string]bool{}}
 	return vc
 }
 
@@ -550,6 +551,7 @@ func (vc *FuncVC) Generate() (err error) {
 	for _, r := range vc.fc.Requires {
 		vc.assume(e0.boolean(r.E))
 	}
+	vc.applyHints(e0)
 	// vacuity guard: the preconditions (and everything assumed at entry) are satisfiable
 	vc.oblige("V", "vacuity/requires-sat", TTrue, TFalse, vc.propTags("C04"), vc.fn.Pos(), "requires satisfiable").ExpectSat = true
 	rpo := vc.analyseCFG()
@@ -604,6 +606,7 @@ func (vc *FuncVC) restore(s *snapshot) {
 	vc.facts = vc.facts[:s.nfacts]
 	vc.decls = vc.decls[:s.ndecls]
 	vc.nfresh = s.nfresh
+	vc.dropDefsAfter(s.nfresh)
 	vc.obls = vc.obls[:s.nobls]
 	vc.writes = vc.writes[:s.nwrites]
 	vc.unsup = vc.unsup[:s.nunsup]
@@ -959,4 +962,48 @@ func (vc *FuncVC) backEdgeChecks(u, h *ssa.BasicBlock, cond Term) {
 		m := env.integer(d.E)
 		vc.oblige("L", fmt.Sprintf("loop%d/decreases@b%d", k, u.Index), cond, And(Ge(lh.measure, IntLit(0)), Lt(m, lh.measure)), vc.propTags("C04"), h.Instrs[0].Pos(), d.Src)
 	}
+}
+
+// applyHints instantiates lemmas (assumed: they are universally valid) and
+// proves-then-assumes plain hint facts at function entry.
+func (vc *FuncVC) applyHints(e0 *Env) {
+	for i, h := range vc.fc.Hints {
+		if call, ok := h.E.(*ECall); ok {
+			if lm := vc.W.spec.lemma(call.Fn); lm != nil {
+				vc.assume(instantiateLemma(e0, lm, call.Args))
+				continue
+			}
+		}
+		t := e0.boolean(h.E)
+		vc.oblige("G", fmt.Sprintf("hint%d", i+1), TTrue, t, vc.propTags(), vc.fn.Pos(), h.Src)
+		vc.assume(t)
+	}
+}
+
+func (sp *Spec) lemma(name string) *Lemma {
+	for _, l := range sp.Lemmas {
+		if l.Name == name {
+			return l
+		}
+	}
+	return nil
+}
+
+func instantiateLemma(e *Env, lm *Lemma, args []Expr) Term {
+	if len(args) != len(lm.Params) {
+		e.fail("lemma %s expects %d arguments", lm.Name, len(lm.Params))
+	}
+	vars := map[string]SVal{}
+	for i, p := range lm.Params {
+		v := e.eval(args[i])
+		want := e.parseType(p.Type)
+		if want.sort() != v.T.Sort {
+			e.fail("lemma %s argument %s: sort mismatch", lm.Name, p.Name)
+		}
+		v.T = e.define(p.Name, v.T)
+		vars[p.Name] = v
+	}
+	n := *e
+	n.vars = vars
+	return n.boolean(lm.Body)
 }
